@@ -10,15 +10,25 @@
 
   Part 2: the full statement `follower_read_fresh` ("a follower read is served at a revision ≥ the leader's
   committed revision when the read began") is FALSE in the model of the code as it is — and in the code, see
-  known_findings.json — for two independent reasons, each with a decided witness trace:
+  known_findings.json — for ONE remaining reason, with a decided witness trace:
     * `joined_fetch_is_stale`: single-flight sharing hands a read the result of a fetch the leader answered
-      before the read began;
-    * `late_set_lowers_revision`: `SetCurrentRevision` is a plain store, so the delayed store of an older
-      fetch lowers the read revision under a read that fetched a newer one.
-  Proved instead: `follower_read_fresh_partial` (non-overlapping follower reads), `fetched_value_fresh`
+      before the read began.
+  The second reason the code used to have is repaired in /repo (db7d4ff: `tso.Commit` only raises the
+  committed revision) and the model follows (`asIs.monotoneSet = true`):
+    * `late_set_lowers_revision` is now a statement about `beforeFix` (the plain store let the delayed store
+      of an older fetch lower the read revision under a read that had fetched a newer one), kept as the
+      witness of the repaired defect;
+    * `late_set_does_not_lower`: for the code as it is, no step lowers the follower's read revision, and every
+      served read that did not join an already-answered fetch is fresh — under any interleaving.  The late
+      join is the ONLY remaining source of staleness (`stale_read_joined_late`).
+  Proved besides: `follower_read_fresh_partial` (non-overlapping follower reads), `fetched_value_fresh`
   (what a read stores is fresh unless it joined an already-answered fetch), `follower_read_fresh_fixed`
-  (with both proposed repairs the full statement holds; each repair alone does not), and
+  (with the proposed repair on top the full statement holds; each switch alone does not give it), and
   `served_only_after_own_sync` / `unreachable_leader_read_fails` (a read whose sync failed is never served).
+
+  Part 3: the forward path of a write transaction (`forward`): `forward_at_most_once` (one execution per client
+  request, a lost answer is reported as Unavailable), `forward_definite_answer_truthful`, and the decided
+  witnesses of what a re-send on Unavailable does (`resend_reports_failed_for_applied_write`, `…_update`).
 -/
 import KB.Server
 import KB.Lemmas.Server
@@ -136,17 +146,25 @@ theorem joined_fetch_is_stale :
     (run asIs (init 10) staleJoinTrace).map (fun s => ((s.reads 1).phase, (s.reads 1).beginRev, (s.reads 1).late))
       = some (.served 10, 11, true) := by decide
 
-/-- Witness 2 (plain store): read 0 fetches 10 and is delayed before `SetCurrentRevision`; the leader commits
-11; read 1 begins, runs its OWN fetch (11), stores 11; read 0's delayed store puts 10 back; read 1 is
-served at 10 although what it fetched was fresh. -/
+/-- The schedule of the repaired defect: read 0 fetches 10 and is delayed before `SetCurrentRevision`; the
+leader commits 11; read 1 begins, runs its OWN fetch (11), stores 11; read 0's delayed store (10) follows;
+read 1 is served. -/
 def lateSetTrace : List Step :=
   [.readBegin 0, .fetchStart 0, .leaderAnswer .ok, .fetchReply, .leaderCommit, .readBegin 1, .fetchStart 1,
    .leaderAnswer .ok, .fetchReply, .setRev 1, .setRev 0, .readServe 1]
 
+/-- Witness of the REPAIRED defect (the code before db7d4ff, `beforeFix`: `SetCurrentRevision` a plain store):
+read 0's delayed store puts 10 back; read 1 is served at 10 although what it fetched itself was fresh. -/
 theorem late_set_lowers_revision :
-    (run asIs (init 10) lateSetTrace).map
+    (run beforeFix (init 10) lateSetTrace).map
         (fun s => ((s.reads 1).phase, (s.reads 1).beginRev, (s.reads 1).late, (s.reads 1).fetched))
       = some (.served 10, 11, false, some 11) := by decide
+
+/-- The same schedule on the code as it is: the delayed store of 10 is ignored, read 1 is served at 11. -/
+theorem late_set_schedule_fresh_now :
+    (run asIs (init 10) lateSetTrace).map
+        (fun s => ((s.reads 1).phase, (s.reads 1).beginRev, (s.reads 1).late, (s.reads 1).fetched, s.followerRev))
+      = some (.served 11, 11, false, some 11, 11) := by decide
 
 theorem follower_read_fresh_false : ¬ follower_read_fresh := by
   intro h
@@ -158,15 +176,79 @@ theorem follower_read_fresh_false : ¬ follower_read_fresh := by
     have hf := h s ⟨10, staleJoinTrace, hrun⟩ 1 10 hw.1
     omega
 
-/-- Each repair alone is not enough: the monotone store does not help a read that joined a stale fetch … -/
+/-- Each switch alone is not enough: the monotone store — which is what the code has now, `asIs` — does not
+help a read that joined a stale fetch … -/
 theorem monotone_set_alone_insufficient :
-    (run { monotoneSet := true, retryLateJoin := false } (init 10) staleJoinTrace).map
+    asIs = { monotoneSet := true, retryLateJoin := false } ∧
+    (run asIs (init 10) staleJoinTrace).map
         (fun s => ((s.reads 1).phase, (s.reads 1).beginRev)) = some (.served 10, 11) := by decide
 
-/-- … and refusing stale joins does not help against the delayed plain store. -/
+/-- … and refusing stale joins would not have helped against the delayed plain store of the old code. -/
 theorem retry_alone_insufficient :
     (run { monotoneSet := false, retryLateJoin := true } (init 10) lateSetTrace).map
         (fun s => ((s.reads 1).phase, (s.reads 1).beginRev)) = some (.served 10, 11) := by decide
+
+/-! ### the repaired half: the follower's read revision never goes back -/
+
+/-- No step of the code as it is lowers the follower's read revision (from ANY state, reachable or not). -/
+theorem follower_rev_never_decreases {s s' : State} {st : Step} (h : step asIs s st = some s') :
+    s.followerRev ≤ s'.followerRev :=
+  followerRev_step_mono rfl h
+
+/-- … hence along every execution. -/
+theorem follower_rev_never_decreases_run {s s' : State} {tr : List Step} (h : run asIs s tr = some s') :
+    s.followerRev ≤ s'.followerRev :=
+  followerRev_run_mono rfl h
+
+/-- The follower's read revision is ≥ every value any read has stored so far, and a read is served at a
+revision ≥ the one it stored itself. -/
+theorem read_revision_covers_stored {s : State} (hs : Reachable asIs s) (r w : Nat)
+    (hw : (s.reads r).fetched = some w) :
+    w ≤ s.followerRev ∧ ∀ v, (s.reads r).phase = .served v → w ≤ v :=
+  ⟨(invAsIs_reachable s hs).stored_le r w hw, fun v hv => (invAsIs_reachable s hs).served_ge r v w hv hw⟩
+
+/-- THE FULL STATEMENT RESTRICTED TO READS THAT DID THEIR OWN FETCH, any interleaving: in every reachable
+state of the code as it is, every served read that did not join a fetch the leader had already answered
+(`late = false`: it started the fetch itself or joined one still unanswered) was served at a revision ≥ the
+leader's committed revision when it began. -/
+theorem own_fetch_read_fresh : ∀ s, Reachable asIs s → FreshOwn s :=
+  fun s hs => (invAsIs_reachable s hs).freshOwn
+
+/-- `late-set-lowers-revision` is repaired: (1) from every reachable state, no step lowers the follower's
+read revision; (2) in every reachable state every served read with `late = false` is fresh — a delayed store
+of an older answer can no longer put a read that fetched a fresh revision below it. -/
+theorem late_set_does_not_lower :
+    (∀ s s' st, Reachable asIs s → step asIs s st = some s' → s.followerRev ≤ s'.followerRev) ∧
+    (∀ s, Reachable asIs s → ∀ r v, (s.reads r).phase = .served v → (s.reads r).late = false →
+      (s.reads r).beginRev ≤ v) :=
+  ⟨fun _ _ _ _ h => follower_rev_never_decreases h, own_fetch_read_fresh⟩
+
+/-- The late join is the ONLY remaining source of staleness: a read served below the leader's committed
+revision at its begin joined a fetch the leader had already answered. -/
+theorem stale_read_joined_late {s : State} (hs : Reachable asIs s) (r v : Nat)
+    (hv : (s.reads r).phase = .served v) (hst : v < (s.reads r).beginRev) : (s.reads r).late = true := by
+  cases hl : (s.reads r).late with
+  | true => rfl
+  | false => have := own_fetch_read_fresh s hs r v hv hl; omega
+
+-- the hypotheses are satisfiable: a reachable state with a served read that ran its own fetch while another
+-- read's store was delayed (the late-set schedule) …
+example : ∃ s, Reachable asIs s ∧ (s.reads 1).phase = .served 11 ∧ (s.reads 1).late = false ∧
+    (s.reads 1).beginRev = 11 := by
+  cases hrun : run asIs (init 10) lateSetTrace with
+  | none => have := late_set_schedule_fresh_now; simp [hrun] at this
+  | some s =>
+    have := late_set_schedule_fresh_now
+    simp [hrun] at this
+    exact ⟨s, ⟨10, lateSetTrace, hrun⟩, this.1, this.2.2.1, this.2.1⟩
+-- … and one with a stale served read (the stale-join schedule)
+example : ∃ s, Reachable asIs s ∧ (s.reads 1).phase = .served 10 ∧ 10 < (s.reads 1).beginRev := by
+  cases hrun : run asIs (init 10) staleJoinTrace with
+  | none => have := joined_fetch_is_stale; simp [hrun] at this
+  | some s =>
+    have := joined_fetch_is_stale
+    simp [hrun] at this
+    exact ⟨s, ⟨10, staleJoinTrace, hrun⟩, this.1, by omega⟩
 
 /-! ### what does hold for the code as it is -/
 
@@ -228,7 +310,7 @@ example : (run asIs (init 10) [.readBegin 0, .fetchStart 0, .leaderAnswer .down,
     (fun s => ((s.reads 0).phase, s.followerRev)) = some (.failed, 10) := by decide
 
 /-- PARTIAL VERSION: when follower reads do not overlap (a read begins only when no other read is between
-its begin and its end), every served read is fresh.  Single-flight never shares and no store is late. -/
+its begin and its end), every served read is fresh.  Single-flight never shares. -/
 theorem follower_read_fresh_partial : ∀ s, ReachableSeq asIs s → Fresh s := by
   intro s hs
   exact (invSeq_reachable s hs).served
@@ -245,10 +327,11 @@ example : ∃ s, ReachableSeq asIs s ∧ (s.reads 0).phase = .served 11 ∧ (s.r
   have h7 := ReachableSeq.other (s' := _) (.readServe 0) h6 (by intro r; simp) rfl
   exact ⟨_, h7, by decide, by decide⟩
 
-/-! ### the proposed repairs -/
+/-! ### the proposed repair -/
 
-/-- With both repairs (a joiner of a fetch that was already answered discards the result and fetches again;
-the follower's read revision only ever rises) the FULL statement holds, under any interleaving. -/
+/-- With the proposed repair on top of the code as it is (a joiner of a fetch that was already answered
+discards the result and fetches again; the follower's read revision only ever rises — that half is in /repo
+since db7d4ff) the FULL statement holds, under any interleaving. -/
 theorem follower_read_fresh_fixed : ∀ s, Reachable fixed s → Fresh s := by
   intro s hs
   exact (invFixed_reachable s hs).served
@@ -257,5 +340,47 @@ theorem follower_read_fresh_fixed : ∀ s, Reachable fixed s → Fresh s := by
 example : (run fixed (init 10) [.readBegin 0, .fetchStart 0, .leaderAnswer .ok, .leaderCommit, .readBegin 1,
     .fetchJoin 1, .fetchReply, .fetchStart 1, .leaderAnswer .ok, .fetchReply, .setRev 1, .setRev 0,
     .readServe 1]).map (fun s => ((s.reads 1).phase, (s.reads 1).beginRev)) = some (.served 11, 11) := by decide
+
+/-! ## Part 3 — forwarded write transactions -/
+
+/-- THE LAW of the forward path (code as it is): a forwarded transaction is executed exactly once per client
+request — never twice — and when its answer is lost the client is answered Unavailable (outcome unknown). -/
+theorem forward_at_most_once (st : Store) (k : Nat) (sh : TxnShape) (lost : Bool) :
+    (forward false st k sh lost).executions = 1 ∧
+    (lost = true → (forward false st k sh lost).answer = .unavailable) := by
+  cases lost <;> simp [forward]
+
+/-- A definite answer is truthful: "condition failed" is only answered for a transaction that left the store
+unchanged, "succeeded" only for one whose write took effect. -/
+theorem forward_definite_answer_truthful (st : Store) (k : Nat) (sh : TxnShape) (lost : Bool) :
+    ((forward false st k sh lost).answer = .failed →
+        (forward false st k sh lost).applied = false ∧ (forward false st k sh lost).store = st) ∧
+    ((forward false st k sh lost).answer = .ok → (forward false st k sh lost).applied = true) := by
+  have hfail : (execTxn st k sh).2 = false → (execTxn st k sh).1 = st := by
+    cases sh with
+    | create => simp only [execTxn]; cases st.modRev k <;> simp
+    | update g => simp only [execTxn]; by_cases h : st.modRev k = some g <;> simp [h]
+  cases lost
+  · cases h2 : (execTxn st k sh).2
+    · simp [forward, h2, hfail h2]
+    · simp [forward, h2]
+  · simp [forward]
+
+/-- Why the forward path must not send the transaction again on Unavailable: the leader had executed the
+create, its answer was lost; the second execution finds the key the first one wrote and the client is told
+definitively that its condition FAILED although its write took effect (two executions for one request). -/
+theorem resend_reports_failed_for_applied_write :
+    (let r := forward true { rev := 1000 } 1 .create true
+     (r.answer, r.executions, r.applied, r.store.modRev 1)) = (.failed, 2, true, some 1001) := by decide
+
+/-- … the same for a guarded update (the first execution moves the key's revision past the guard). -/
+theorem resend_reports_failed_for_applied_update :
+    (let st := (execTxn { rev := 1000 } 1 .create).1
+     let r := forward true st 1 (.update 1001) true
+     (r.answer, r.executions, r.applied, r.store.modRev 1)) = (.failed, 2, true, some 1002) := by decide
+
+-- the lost-answer case of the law on the same inputs: Unavailable, one execution, the write is there
+example : (let r := forward false { rev := 1000 } 1 .create true
+     (r.answer, r.executions, r.applied, r.store.modRev 1)) = (.unavailable, 1, true, some 1001) := by decide
 
 end KB.C18
